@@ -84,7 +84,7 @@ def run_p1(files, lang, tag, root_name="proj"):
 # rename-pair comparison (second clause)
 # =====================================================================================================================
 def compare_twins(lang, vA, rowsA, vB, rowsB, renamed_lines, old, new, renamed_fields=(), skip_stmts=(), cross=None, strip="",
-                  qualify=None):
+                  qualify=None, prefix="rename"):
     """Position-wise comparison of the P1 symbol tables of a program and its alpha-renamed twin.
     renamed_lines: {0-based line} of the renamed occurrences (one occurrence of a name per line); renamed_fields: field names of
     class-body reads `uN = name` (their GIR rows carry the class statement's line); skip_stmts: statements of occurrences that
@@ -99,7 +99,7 @@ def compare_twins(lang, vA, rowsA, vB, rowsB, renamed_lines, old, new, renamed_f
         cb = collections.Counter(x.get("operation") for x in rb)
         diff = {k: cb.get(k, 0) - ca.get(k, 0) for k in set(ca) | set(cb) if ca.get(k, 0) != cb.get(k, 0)}
         only = "(variable_decl-rows-appear-or-vanish)" if set(diff) == {"variable_decl"} else ""
-        return (f"rename:{lang}:gir-shape{only}",
+        return (f"{prefix}:{lang}:gir-shape{only}",
                 f"renaming {old}->{new} changes the shape of the GIR itself ({len(ra)} vs {len(rb)} rows; row count differences {diff})", 0)
     posA = {int(r["stmt_id"]): i for i, r in enumerate(ra)}
     posB = {int(r["stmt_id"]): i for i, r in enumerate(rb)}
@@ -138,19 +138,19 @@ def compare_twins(lang, vA, rowsA, vB, rowsB, renamed_lines, old, new, renamed_f
         return out
     ta, tb = table(rowsA, posA, vA), table(rowsB, posB, vB)
     if len(ta) != len(tb):
-        return f"rename:{lang}:s2space-row-count", f"{len(ta)} symbol rows before, {len(tb)} after renaming {old}->{new}", len(ta)
+        return f"{prefix}:{lang}:s2space-row-count", f"{len(ta)} symbol rows before, {len(tb)} after renaming {old}->{new}", len(ta)
     for x, y in zip(ta, tb):
         if x[0] != y[0]:
-            return f"rename:{lang}:s2space-row-order", f"symbol rows are attached to different statements after renaming {old}->{new}: {x} vs {y}", len(ta)
+            return f"{prefix}:{lang}:s2space-row-order", f"symbol rows are attached to different statements after renaming {old}->{new}: {x} vs {y}", len(ta)
         if x[5]:
             continue
         want = new if (x[1] == old and x[4]) else x[1]
         if y[1] != want:
-            return f"rename:{lang}:s2space-symbol-name", f"after renaming {old}->{new} the symbol at statement #{x[0]} is called {y[1]!r}, expected {want!r}", len(ta)
+            return f"{prefix}:{lang}:s2space-symbol-name", f"after renaming {old}->{new} the symbol at statement #{x[0]} is called {y[1]!r}, expected {want!r}", len(ta)
         if x[2] != y[2]:
             kind = lambda t: t[2] if t[0] in ("decl", "decl-in") else t[0]
             q_ = qualify(x[6]) if qualify else ""       # (a cause qualifier computed from where the statement sits, not a skip)
-            return ((f"rename:{lang}:s2space-symbol_id{q_}" if q_ else f"rename:{lang}:s2space-symbol_id({kind(x[2])}->{kind(y[2])})"),
+            return ((f"{prefix}:{lang}:s2space-symbol_id{q_}" if q_ else f"{prefix}:{lang}:s2space-symbol_id({kind(x[2])}->{kind(y[2])})"),
                     f"renaming {old}->{new} changed the binding of {x[1]!r} at statement #{x[0]} (line {x[3]}): {x[2]} -> {y[2]}", len(ta))
     return None, "", len(ta)
 
@@ -1030,6 +1030,21 @@ def proj_prepare(files, meta, run):
         mine = {n for n, a in (i.get("names") or []) if (a or n) == name} if i["form"] != "import" else {i["module"].split(".")[-1]}
         return any(j is not i and j["file"] == path and (source_names(j) & mine) for j in meta["imports"].values())
 
+    def chain_facts(fpath, fname, depth=0):
+        """follow `fname`, looked up at module level of `fpath`, through the modules that re-export it:
+        (some module of the chain binds it under an alias, some lookup of the chain happens in a package __init__)"""
+        aliased, through_init = False, fpath.endswith("__init__.py")
+        if depth <= 6:
+            for k2 in meta["imports"].values():
+                if k2["file"] == fpath and k2["scope"] == meta["files"][fpath]["scope"] and fname in k2["binds"]:
+                    aliased = any((a2 or n2) == fname and a2 and a2 != n2 for n2, a2 in (k2.get("names") or []))
+                    t2 = (k2.get("target") or {}).get(fname)
+                    if t2 and t2[1] is not None:
+                        a3, i3 = chain_facts(t2[0], t2[1], depth + 1)
+                        aliased, through_init = aliased or a3, through_init or i3
+                    break
+        return aliased, through_init
+
     def import_kind(path, owner, name, tgt):
         """The import statement that binds `name` in scope `owner` of file `path`, and which of the five import mechanisms that
         fail on the pinned tree it involves (recomputed from the case: the import table of the generated project)."""
@@ -1043,8 +1058,17 @@ def proj_prepare(files, meta, run):
                 elif i["form"] == "wildcard":
                     cause = "from-import-wildcard"
                 elif tgt[0] == "decl" and t and meta["consts"][tgt[1]]["file"] != t[0]:
+                    # a re-export chain. On the pinned tree it fails when some module of the chain re-exports under an ALIAS (lian
+                    # matches the original name) or when a name is looked up in a package __init__; a chain of same-name
+                    # re-exports through plain modules resolves, so it gets no cause and is judged like any other import.
                     re = "(re-exported-by-" + ("package-init" if t[0].endswith("__init__.py") else "module") + ")"
-                    cause = "re-exported-name"
+                    aliased, through_init = chain_facts(t[0], t[1])
+                    if aliased:
+                        cause = "re-exported-name"
+                    elif through_init:
+                        cause = "declared-in-package-__init__"
+                    elif source_name_twice(i, name, path):
+                        cause = "same-source-name-imported-twice-in-the-file"
                 elif tgt[0] == "decl" and meta["consts"][tgt[1]]["file"].endswith("__init__.py"):
                     cause = "declared-in-package-__init__"
                 elif source_name_twice(i, name, path):
@@ -1349,6 +1373,18 @@ def batch_py_project(job):
             res["fails"].append((sig, text, dict(case, occurrence=t_)))
         if not res["samples"]:
             res["samples"].append({"lang": "python-project", "files": files, "occurrences_judged": r["judged"]})
+        pair = meta.get("importer_pair")
+        if pair and all(pf in views for pf in pair):
+            # the same importer (same plan, same statements; only the unique tags/constants differ) under a file name that sorts
+            # before and one that sorts after the modules it imports from: the analysis order must not show in the bindings
+            sig, text, nrows = compare_twins("python-project", views[pair[0]], s2rows.get(pair[0], []), views[pair[1]],
+                                             s2rows.get(pair[1], []), set(), None, None,
+                                             skip_stmts=r["failed_stmts"].get(pair[0], ()), cross=(views, views),
+                                             prefix="same-importer-under-two-file-names")
+            res["importer_pairs"] = res.get("importer_pairs", 0) + 1
+            res["importer_pair_rows"] = res.get("importer_pair_rows", 0) + nrows
+            if sig:
+                res["fails"].append((sig, f"{pair[0]} vs {pair[1]}: {text.replace('renaming None->None', 'the file name')}", case))
         if p["twin"]:
             tw = p["twin"]
             tviews, ts2v, ts2rows, tunit_of, _ = run_p1(tw["files"], "python", f"{tag}_{n}_r")
@@ -1470,7 +1506,9 @@ def main():
         "class, inner class, enclosing function and module, read in inner-class methods, closures in them and inner class bodies; "
         "shadowing at every level, parameters shadowing globals, global/nonlocal, declarations inside if/else/for/while/try/except "
         "blocks; JavaScript let/const/var/function hoisting/closures/catch/loops, classes with static fields and pool-named methods; "
-        "multi-file Python imports incl. package trees 3-4 levels deep with same-named modules and 1-4 leading dots); "
+        "multi-file Python imports incl. package trees 3-4 levels deep with same-named modules and 1-4 leading dots, and same-name "
+        "re-export chains (variable, function, class; 1 and 2 intermediate modules) read by one importer generated under a file name "
+        "before and one after the re-exporting modules in path order); "
         "distinct_nontrivial = distinct (use-site scope kind -> declaration kind) pairs judged against the runtime-revealed binding"))
     thorough = chk.tier == "thorough"
     chk.max_samples = 8
@@ -1550,6 +1588,9 @@ def main():
         chk.count(f"{lang}: s2space symbol rows read", v["s2rows"])
         if "validated" in v:
             chk.count(f"{lang}: rename twins confirmed behaviour-preserving by the language's own toolchain", v["validated"])
+        if "importer_pairs" in v:
+            chk.count(f"{lang}: importer pairs compared (same importer under a file name before and after its re-exporting modules)", v["importer_pairs"])
+            chk.count(f"{lang}: s2space symbol rows compared across importer pairs", v["importer_pair_rows"])
         if "imported" in v:
             chk.count(f"{lang}: occurrences bound to a declaration in another file (imported symbols and modules)", v["imported"])
         chk.count("generated programs discarded (not total under the runtime)", v["discarded"])
@@ -1583,6 +1624,8 @@ def main():
         chk.require("python-project: occurrences bound to a declaration in another file (imported symbols and modules)", 250 * (k if k == 1 else 12))
         chk.require(f"python-project: {U}", 100 * (k if k == 1 else 12))
         chk.require("python-project: rename pairs compared", 10 * (k if k == 1 else 12))
+        chk.require("python-project: importer pairs compared (same importer under a file name before and after its re-exporting modules)",
+                    40 * (k if k == 1 else 12))
         for lang_ in ("java", "go", "c", "php", "typescript"):
             chk.require(f"{lang_}: rename pairs compared", 3)
         for lang_ in ("java", "c", "typescript"):
